@@ -227,6 +227,7 @@ def run_kani(work, crate, harnesses, jobs=8, harness_timeout=900, extra=None, lo
         # no swap on this machine: a CBMC run that outgrows its share is killed and reported as undecided
         while p.poll() is None:
             time.sleep(5)
+            procs = []
             try:
                 for pid in os.listdir('/proc'):
                     if not pid.isdigit():
@@ -240,11 +241,20 @@ def run_kani(work, crate, harnesses, jobs=8, harness_timeout=900, extra=None, lo
                         if sid != p.pid or comm != 'cbmc':
                             continue
                         rss_gb = int(rest[21]) * 4096 / 1e9
+                        procs.append((rss_gb, int(pid)))
                         if rss_gb > rss_limit_gb:
                             os.kill(int(pid), 9)
                             killed.append((pid, round(rss_gb, 1)))
                     except (OSError, ValueError, IndexError):
                         continue
+                # machine-wide guard: no swap here, so when little memory is left the largest CBMC of this run is given up
+                with open('/proc/meminfo') as f:
+                    mi = f.read()
+                m = re.search(r'MemAvailable:\s+(\d+) kB', mi)
+                if m and int(m.group(1)) < 4 * 1024 * 1024 and procs:
+                    big = max(procs)
+                    os.kill(big[1], 9)
+                    killed.append((str(big[1]), round(big[0], 1), 'low system memory'))
             except OSError:
                 pass
     th = threading.Thread(target=watchdog, daemon=True)
